@@ -9,7 +9,7 @@ RULE = ('random signature (pos/defaulted/*args/kw-only/**kw; function, class __i
         '(str, a/b, list, None, scoped get_configurable) x call shape; oracle = prefix-overlay model + CPython binder (twin). '
         'distinct = (shape, api, signature features, active depth, #applicable layers, call-shape classes, access path)')
 TIERS = {
-    'quick': {'workers': 8, 'cases': 600, 'timeout': 600},
+    'quick': {'workers': 8, 'cases': 1800, 'timeout': 600},
     'thorough': {'workers': 16, 'cases': 25000, 'timeout': 3000},
 }
 SHAPES = ['fn', 'init', 'new', 'method']
@@ -18,7 +18,8 @@ REQUIRED_BUCKETS = (['shape:' + s for s in SHAPES] + ['api:configurable', 'api:r
                     ['call:positional-override', 'call:keyword-override', 'call:omitted-bound', 'call:omitted-default',
                      'sig:kwonly', 'sig:varargs', 'sig:varkw', 'sig:extra-via-varkw', 'layers:2+', 'layers:3+',
                      'nonprefix-binding-present', 'string-prefix-trap', 'via:scoped-get', 'via:scope',
-                     'expect:TypeError', 'expect:ok', 'entry:list', 'entry:none', 'entry:slash'])
+                     'expect:TypeError', 'expect:ok', 'entry:list', 'entry:none', 'entry:slash', 'history:round2+', 'history:rebind-existing',
+                     'history:bind-new-after-call', 'history:scoped-call-left-by-BaseException'])
 ORACLE_COUNTERS = ['oracle_evals', 'calls_compared']
 ALPHA = ['a', 'b', 'c']
 
@@ -75,8 +76,16 @@ def iter_cases(ctx, rng, n):
       K.append(rng.choice(['x0', 'x9']))
     if rng.random() < 0.04 and nP and pos:
       K.append(pos[0])  # duplicate: TypeError expected from both
+    rounds = []
+    for _ in range(rng.choice([0, 0, 1, 2])):
+      rb = []
+      for b in bindable:
+        if rng.random() < 0.5:
+          # re-bind / newly bind under a (usually shorter) prefix of the active scope, or elsewhere
+          rb.append([rng.choice(cands[:len(active) + 1] + cands[:max(1, len(active))] + ['a', 'zz']), b])
+      rounds.append({'rebinds': rb, 'prelude': rng.random() < 0.3})
     yield {'spec': spec, 'prog': prog, 'via': via, 'bindings': bindings, 'nP': nP, 'K': K,
-           'path': rng.choice(['direct', 'object', 'selector', 'short'])}
+           'path': rng.choice(['direct', 'object', 'selector', 'short']), 'rounds': rounds}
 
 
 def apply_binding(gin, p, scope, param, api, value):
@@ -91,8 +100,39 @@ def apply_binding(gin, p, scope, param, api, value):
     gin.parse_config('%s%s:\n  %s = %r\n' % (scope + '/' if scope else '', sel, param, value))
 
 
+class Interrupt(BaseException):
+  pass
+
+
+def setup(ctx):
+  import gin
+
+  @gin.configurable('c1interrupt', module='c1')
+  def interrupt():
+    raise Interrupt('not an Exception')
+
+  @gin.configurable('c1cons', module='c1')
+  def cons(x=None):
+    return x
+
+
+def prelude(gin, bind=True):
+  """A scoped call and a scoped reference evaluation that are left by a BaseException; afterwards nothing may have changed."""
+  try:
+    gin.get_configurable('leaked/scope/c1interrupt')()
+  except Interrupt:
+    pass
+  if bind:
+    with gin.unlock_config():
+      gin.parse_config('c1pre/c1cons.x = @leaked2/c1interrupt()')
+  try:
+    with gin.config_scope(['c1pre']):
+      gin.get_configurable('c1.c1cons')()
+  except Interrupt:
+    pass
+
+
 def run_case(ctx, case):
-  import contextlib
   import gin
   spec = case['spec']
   gin.clear_config()
@@ -104,7 +144,27 @@ def run_case(ctx, case):
     value = 'B|%s|%s' % (scope, param)
     apply_binding(gin, p, scope, param, api, value)
     model.setdefault((scope, p.selector), {})[param] = value
+  call_round(ctx, case, p, model, 0)
+  for ri, rnd in enumerate(case.get('rounds', [])):
+    ctx.bucket('history:round2+')
+    if rnd['prelude']:
+      ctx.bucket('history:scoped-call-left-by-BaseException')
+      prelude(gin)
+    for scope, param in rnd['rebinds']:
+      value = 'R%d|%s|%s' % (ri, scope, param)
+      if param in model.get((scope, p.selector), {}):
+        ctx.bucket('history:rebind-existing')
+      else:
+        ctx.bucket('history:bind-new-after-call')
+      gin.bind_parameter((scope, p.selector, param), value)
+      model.setdefault((scope, p.selector), {})[param] = value
+    call_round(ctx, case, p, model, ri + 1)
 
+
+def call_round(ctx, case, p, model, round_no):
+  import contextlib
+  import gin
+  spec = case['spec']
   sm = models.ScopeModel()
   with contextlib.ExitStack() as st:
     for e in case['prog']:
@@ -190,7 +250,7 @@ def run_case(ctx, case):
     ctx.bucket('call:omitted-default')
   ctx.fp(spec['shape'], spec['api'], len(spec['pos']), len(spec['dflt']), spec['varargs'], len(spec['kwonly']),
          spec['varkw'], bool(spec.get('allow')), bool(spec.get('deny')), len(active), nlayers, nP, len(K),
-         sorted(inj), case['via'], case['path'], bool(expect_exc))
+         sorted(inj), case['via'], case['path'], bool(expect_exc), round_no)
   ctx.sample({'spec': spec, 'active': active, 'bindings': sorted(model and [list(k) + [sorted(v)] for k, v in model.items()]),
               'nP': nP, 'K': Kn, 'expected': repr(expect)[:300]})
 
